@@ -13,6 +13,7 @@ from vlib import circ, circgen, symeval
 from checks import passes
 from checks.common import REPLAY_PRELUDE
 
+HASH_SEEDS = {"quick": (1,), "thorough": (1, 2, 3)}  # also run (quick size) under these PYTHONHASHSEEDs
 LEVEL = "exploration"
 TECHNIQUE = "bounded exploration of circuits x passes with z3 deciding pairwise gate inequivalence after MergeEquivalentGates"
 USES_STUBS = True
